@@ -285,7 +285,10 @@ func VerifC48Write() {
 	verifPark(r.readableC, 2)
 	verifPark(r.writableC, 2)
 
+	verifWatch(r, &r.mutex, true)
 	n, blocked := r.Write(batch, block)
+	verifWatch(r, &r.mutex, false)
+	verif.Assert("lock-discipline-watch-saw-locked-accesses", verifWatchHits() > 0)
 
 	post := vSnapshot(r, c)
 	verif.Observe("write", n, blocked, post.ri, post.wi, post.rd, post.wr, post.closed)
@@ -310,7 +313,10 @@ func VerifC48Read() {
 	verifPark(r.readableC, 2)
 	verifPark(r.writableC, 2)
 
+	verifWatch(r, &r.mutex, true)
 	n, blocked := r.Read(out, block)
+	verifWatch(r, &r.mutex, false)
+	verif.Assert("lock-discipline-watch-saw-locked-accesses", verifWatchHits() > 0)
 
 	post := vSnapshot(r, c)
 	verif.Observe("read", n, blocked, post.ri, post.wi, post.rd, post.wr, post.closed)
@@ -330,7 +336,10 @@ func VerifC48Close() {
 	verifPark(r.readableC, 2)
 	verifPark(r.writableC, 2)
 
+	verifWatch(r, &r.mutex, true)
 	r.Close()
+	verifWatch(r, &r.mutex, false)
+	verif.Assert("lock-discipline-watch-saw-locked-accesses", verifWatchHits() > 0)
 
 	post := vSnapshot(r, c)
 	verif.Observe("close", post.ri, post.wi, post.rd, post.wr, post.closed)
